@@ -133,6 +133,15 @@ def build_pool():
     for fmt in sorted(c08.MANY):
         fname, recipes = c08.MANY[fmt]
         pool.append({"op": "dump_many", "fmt": fmt, "out": fname, "src": recipes[0]["file"]})
+    # dumps that fail half-way because of the disk (a failed call must not leave state behind either)
+    for fmt in ("xyz", "molden", "wfx", "fchk", "json_qcschema", "mol2", "pdb"):
+        fname, recipes = c08.ONE[fmt]
+        pool.append({"op": "dump_one", "fmt": fmt, "out": fname or "o.json", "obj": recipes[0], "explicit": fname is None,
+                     "faults": [{"kind": "text_write_fail", "k": 7, "errno": "ENOSPC"}]})
+        pool.append({"op": "dump_one", "fmt": fmt, "out": fname or "o.json", "obj": recipes[0], "explicit": fname is None,
+                     "faults": [{"kind": "disk_full", "capacity": 120}]})
+    pool.append({"op": "dump_many", "fmt": "xyz", "out": "t.xyz", "src": "water_trajectory.xyz", "faults": [{"kind": "disk_full", "capacity": 200}]})
+    pool.append({"op": "dump_many", "fmt": "pdb", "out": "t.pdb", "src": "water_trajectory.pdb", "faults": [{"kind": "text_write_fail", "k": 30, "errno": "EIO"}]})
     # ghost atoms, unknown elements: the inputs whose outcome flips when a global table is edited
     ghost = {"kind": "corpus", "file": "he2_ghost_psi4_1.0.molden", "mods": []}
     ghost2 = {"kind": "corpus", "file": "water_dimer_ghost.fchk", "mods": []}
@@ -197,7 +206,9 @@ def exec_call(call, prep, disk, prefix):
         elif op == "load_many":
             ds = list(iodata.load_many(path, fmt=call.get("fmt")))
             rec = ["ok", [canon.iodata_digest(d) for d in ds]]
-        elif op == "dump_one":
+        if call.get("faults") and "out" in call:
+            disk.plans[prefix + call["out"]] = seams.WritePlan.from_faults(call["faults"])
+        if op == "dump_one":
             out = prefix + call["out"]
             fmt = call["fmt"] if call.get("explicit") or call["fmt"] == "json_qcschema" else None
             r = iodata.dump_one(prep["obj"], out, fmt=fmt, allow_changes=call.get("allow_changes", False))
@@ -301,7 +312,8 @@ def _v(cls, msg, trace, extra=""):
 
 def _call_name(call):
     what = call.get("file") or (call.get("obj") or {}).get("file") or (call.get("obj") or {}).get("kind") or call.get("src")
-    return f"{call['op']}({what}->{call.get('out', '')} fmt={call.get('fmt')})"
+    flt = "" if not call.get("faults") else " fault=" + call["faults"][0]["kind"]
+    return f"{call['op']}({what}->{call.get('out', '')} fmt={call.get('fmt')}{flt})"
 
 
 def _save_warn_state():
